@@ -69,6 +69,26 @@ func (e *Ev) evGhostCall(x *ast.CallExpr) Val {
 		o := *e.oldEv
 		o.bound = e.bound
 		return o.ev(x.Args[0])
+	case "before":
+		if e.beforeEv == nil {
+			e.unsupp(x, "before() is only meaningful in a step clause")
+		}
+		o := *e.beforeEv
+		o.bound = e.bound
+		return o.ev(x.Args[0])
+	case "lcat":
+		// left-nested concatenation ((a.b).c).d
+		fx.useSeq = true
+		t := e.seqArg(arg(0), x)
+		for i := 1; i < len(x.Args); i++ {
+			r := e.seqArg(arg(i), x)
+			if t == "bs_empty" {
+				t = r
+			} else if r != "bs_empty" {
+				t = "(bs_cat " + t + " " + r + ")"
+			}
+		}
+		return VSeq{t}
 	case "forall", "exists":
 		if len(x.Args) != 4 {
 			e.unsupp(x, "%s(k, lo, hi, P) expects 4 arguments", id.Name)
@@ -188,6 +208,19 @@ func (e *Ev) evGhostCall(x *ast.CallExpr) Val {
 		fx.useSeq = true
 		fx.langsUsed[lid.Name] = true
 		return VBool{"(inlang_" + lid.Name + " " + e.seqArg(arg(1), x) + ")"}
+	case "matches":
+		// matches(re, s): the regexp value re matches s
+		rv, ok := arg(0).(VRegex)
+		if !ok {
+			e.unsupp(x, "matches needs a regexp")
+		}
+		ln := "re_" + rv.Var
+		if !rv.Param {
+			fx.prog.registerCodeRegex(ln, rv.Pattern)
+		}
+		fx.langsUsed[ln] = true
+		fx.useSeq = true
+		return VBool{"(inlang_" + ln + " " + e.seqArg(arg(1), x) + ")"}
 	case "matchat":
 		// matchat(s, k, pat): s[k:k+len(pat)] == pat, no bounds implied
 		s, ok1 := arg(0).(VStr)
